@@ -150,6 +150,29 @@ func driveOne(tr *vrt.Tracer, rng *rand.Rand, kind string, w uint, maxSeq uint64
 		cur = minU(maxSeq, uint64(rng.Intn(2*int(w)+3)))
 	}
 	first := true
+	if wrap && maxSeq >= 64 && rng.Intn(2) == 0 {
+		// accept a number, walk the head in moderate steps to about half the space ahead of it, re-check it
+		s0 := cur
+		r.step(s0, true)
+		first = false
+		accepted = append(accepted, s0)
+		target := mod/2 + uint64(rng.Intn(5)) - 2
+		steps := uint64(3 + rng.Intn(6))
+		var walked uint64
+		for i := uint64(0); i < steps; i++ {
+			k := (target - walked) / (steps - i) // the last step lands exactly on the target
+			if k == 0 {
+				continue
+			}
+			walked += k
+			nx, _ := add(cur, k)
+			if _, inv, fl := r.step(nx, true); inv && fl {
+				cur = nx
+			}
+		}
+		r.step(s0, true)
+		r.step(s0, true)
+	}
 	for i := 0; i < ops; i++ {
 		var s uint64
 		ok := true
@@ -210,8 +233,10 @@ func driveOne(tr *vrt.Tracer, rng *rand.Rand, kind string, w uint, maxSeq uint64
 			} else {
 				s = maxSeq + 1 + uint64(rng.Intn(3))
 			}
-		case c < 96 && wrap: // around the half-space boundary
+		case c < 95 && wrap: // around the half-space boundary, ahead ...
 			s, ok = add(cur, mod/2+uint64(rng.Intn(7))-3)
+		case c < 97 && wrap: // ... and behind
+			s, ok = sub(cur, mod/2+uint64(rng.Intn(7))-3)
 		default:
 			if maxSeq == 1<<64-1 {
 				s = rng.Uint64()
